@@ -3,18 +3,11 @@
 (* C05 -- fetch / clone / push transfer a complete, byte-identical object   *)
 (* closure.                                                                 *)
 (*                                                                          *)
-(* Part 1  object universe (commits, trees with shared subtrees and blobs,  *)
-(*         gitlinks, annotated tags and tag chains), stores, closures.      *)
-(* Part 2  MissingObjectFinder (dulwich/object_store.py) transcribed:       *)
-(*         _split_commits_and_tags, get_reachable_commits,                  *)
-(*         _collect_ancestors, remote_has, the work-set iteration           *)
-(*         (__next__) with sha_done, leaf entries and include-tag.          *)
-(* Part 3  the have/ACK negotiation: ObjectStoreGraphWalker (client),       *)
-(*         _handle_upload_pack_head / _tail (client.py), find_common_       *)
-(*         revisions + Single/Multi/MultiAckDetailed graph walker           *)
-(*         implementations and want validation (server.py), two FIFO        *)
-(*         channels in between.                                             *)
-(* Part 4  one transfer as a state machine over a case (universe, sender    *)
+(* Parts 1-3 (objects and closures, MissingObjectFinder, the walker and the *)
+(*         ack implementations) are the operators of TransferOps.           *)
+(* Part 4  _handle_upload_pack_head / _tail (client.py), want validation    *)
+(*         and find_common_revisions (server.py) around a FIFO channel:     *)
+(*         one transfer as a state machine over a case (universe, sender    *)
 (*         refs, receiver tips, wants, capability set) chosen in Init, and  *)
 (*         the properties ReceiverComplete, NoLoss, SenderSound,            *)
 (*         WantValidation, ThinResolvable as invariants.                    *)
@@ -23,7 +16,7 @@
 (* enumeration for replay on the real code) and TransferTrace (judging      *)
 (* recorded real transfers).                                                *)
 (***************************************************************************)
-EXTENDS Integers, Sequences, FiniteSets, TLC
+EXTENDS TransferOps
 
 CONSTANTS
     NC,          \* commits 1..NC; commit i has its parents among 1..i-1 (canonical DAGs)
@@ -38,217 +31,8 @@ CONSTANTS
     Forge,       \* BOOLEAN: also explore requests for one object that is not an advertised value
     MaxInVain,   \* client gives up after this many haves without ACK (256 in dulwich/client.py)
     AtomicNeg,   \* TRUE: negotiation collapsed into one step (complete walk); object-graph configs
-    PopAny,      \* TRUE: MissingObjectFinder pops any todo entry; FALSE: the least (state reduction)
-    Bug          \* "none", or a seeded defect of the model (negative controls)
-
-(***************************************************************************)
-(* Part 1 -- objects                                                        *)
-(***************************************************************************)
-C(i) == <<"c", i>>
-T(i) == <<"t", i>>
-B(i) == <<"b", i>>
-G(i) == <<"g", i>>
-Kind(o) == o[1]
-Num(o)  == o[2]
-Rank(o) == (CASE Kind(o) = "c" -> 0 [] Kind(o) = "g" -> 1 [] Kind(o) = "t" -> 2 [] OTHER -> 3) * 1000 + Num(o)
-Least(S) == CHOOSE o \in S : \A p \in S : Rank(o) <= Rank(p)
-RECURSIVE SetToSeqLeast(_)
-SetToSeqLeast(S) == IF S = {} THEN <<>> ELSE <<Least(S)>> \o SetToSeqLeast(S \ {Least(S)})
-
-(* A universe U is a record                                                *)
-(*   par : sequence (per commit) of sets of parent commit numbers           *)
-(*   tr  : sequence (per commit) of root tree numbers                       *)
-(*   ent : sequence (per tree) of sets of child objects (trees, blobs);     *)
-(*         a gitlink entry is NOT an object of any store and is not listed  *)
-(*   lnk : sequence (per tree) of BOOLEAN, the tree also has a gitlink      *)
-(*   tg  : sequence (per tag) of target objects (commit/tree/blob/tag)      *)
-CommitsOf(U) == {C(i) : i \in 1..Len(U.par)}
-TagsOf(U)    == {G(i) : i \in 1..Len(U.tg)}
-
-Kids(U, o) ==
-    CASE Kind(o) = "c" -> {T(U.tr[Num(o)])} \cup {C(p) : p \in U.par[Num(o)]}
-      [] Kind(o) = "t" -> U.ent[Num(o)]
-      [] Kind(o) = "g" -> {U.tg[Num(o)]}
-      [] OTHER         -> {}
-
-RECURSIVE Close(_, _, _)
-Close(U, done, front) ==
-    IF front = {} THEN done
-    ELSE Close(U, done \cup front, (UNION {Kids(U, o) : o \in front}) \ (done \cup front))
-Closure(U, S) == Close(U, {}, S)            \* everything reachable from S, S included
-
-AllObjects(U) == Closure(U, CommitsOf(U) \cup TagsOf(U))
-Closed(U, S)  == \A o \in S : Kids(U, o) \subseteq S
-
-RECURSIVE AncIdx(_, _, _)
-AncIdx(U, done, front) ==                   \* commit numbers reachable through parents
-    IF front = {} THEN done
-    ELSE AncIdx(U, done \cup front, (UNION {U.par[i] : i \in front}) \ (done \cup front))
-Anc(U, cs) == {C(i) : i \in AncIdx(U, {}, {Num(c) : c \in cs})}     \* ancestors-or-self
-
-RECURSIVE Peel(_, _)
-Peel(U, o) == IF Kind(o) = "g" THEN Peel(U, U.tg[Num(o)]) ELSE o
-RECURSIVE TagChain(_, _)
-TagChain(U, o) == IF Kind(o) = "g" THEN {o} \cup TagChain(U, U.tg[Num(o)]) ELSE {}
-
-(***************************************************************************)
-(* Part 2 -- MissingObjectFinder                                            *)
-(***************************************************************************)
-\* _split_commits_and_tags(store, [o], unknown="ignore"): (commits, tags, others), tags peeled
-\* recursively; objects the store does not hold are dropped
-RECURSIVE SplitOne(_, _, _)
-SplitOne(U, store, o) ==
-    IF o \notin store THEN [c |-> {}, g |-> {}, o |-> {}]
-    ELSE IF Kind(o) = "c" THEN [c |-> {o}, g |-> {}, o |-> {}]
-    ELSE IF Kind(o) = "g" THEN LET r == SplitOne(U, store, U.tg[Num(o)])
-                               IN  [c |-> r.c, g |-> r.g \cup {o}, o |-> r.o]
-    ELSE [c |-> {}, g |-> {}, o |-> {o}]
-Split(U, store, lst) ==
-    [c |-> UNION {SplitOne(U, store, x).c : x \in lst},
-     g |-> UNION {SplitOne(U, store, x).g : x \in lst},
-     o |-> UNION {SplitOne(U, store, x).o : x \in lst}]
-
-\* _collect_ancestors(store, heads, common): (commits reachable from heads without passing a
-\* commit of common, the commits of common met on the way); the result does not depend on the
-\* queue order, so it is given as a fixpoint
-RECURSIVE CollectMissing(_, _, _, _)
-CollectMissing(U, common, done, front) ==
-    LET f == front \ (common \cup done) IN
-    IF f = {} THEN done
-    ELSE CollectMissing(U, common, done \cup f, UNION {{C(p) : p \in U.par[Num(c)]} : c \in f})
-Missing(U, heads, common) == CollectMissing(U, common, {}, heads)
-Bases(U, heads, common) ==
-    LET m == Missing(U, heads, common)
-    IN  (heads \cup UNION {{C(p) : p \in U.par[Num(c)]} : c \in m}) \cap common
-
-\* _collect_filetree_revs(store, tree, kset): everything below the tree, the tree itself NOT included
-TreeObjs(U, t) == Closure(U, U.ent[t])
-
-\* get_tagged(): peeled object -> one tag whose ref peels to it (dict, a later ref overwrites an
-\* earlier one: any choice); only consulted with include-tag
-TaggedChoices(U, tagrefs) ==
-    LET P == {Peel(U, g) : g \in tagrefs}
-    IN  {f \in [P -> tagrefs] : \A p \in P : Peel(U, f[p]) = p}
-
-\* MissingObjectFinder.__init__
-MofInit(U, store, haves, wants) ==
-    LET hv == Split(U, store, haves)
-        wv == Split(U, store, wants)
-        allAnc == Anc(U, hv.c)
-        miss == Missing(U, wv.c, allAnc)
-        bases0 == Bases(U, wv.c, allAnc)
-        \* negative control: the parents of the missing commits are taken for common without
-        \* looking whether the peer really has them
-        bases == IF Bug = "RemoteHasParents"
-                 THEN bases0 \cup ((UNION {{C(p) : p \in U.par[Num(c)]} : c \in miss}) \ miss)
-                 ELSE bases0
-        rh == bases \cup UNION {TreeObjs(U, U.tr[Num(b)]) : b \in bases} \cup hv.g
-    IN  [remoteHas |-> rh,
-         todo |-> {<<o, FALSE>> : o \in miss \cup (wv.g \ hv.g) \cup (wv.o \ hv.o)}]
-
-\* one iteration of __next__ for the popped entry e = <<object, leaf>>: (todo', shaDone', sent')
-MofStep(U, tagged, todo, shaDone, sent, e) ==
-    LET o == e[1]
-        rest == todo \ {e}
-    IN  IF o \in shaDone THEN [todo |-> rest, shaDone |-> shaDone, sent |-> sent]
-        ELSE LET exp == IF e[2] THEN {}
-                        ELSE CASE Kind(o) = "c" -> {<<T(U.tr[Num(o)]), FALSE>>}
-                               [] Kind(o) = "t" -> {<<k, Kind(k) = "b">> : k \in U.ent[Num(o)]}
-                               [] Kind(o) = "g" -> {<<U.tg[Num(o)], FALSE>>}
-                               [] OTHER -> {}
-                 tg  == IF o \in DOMAIN tagged THEN {<<tagged[o], TRUE>>} ELSE {}
-                 add == {x \in exp \cup tg : x[1] \notin shaDone}
-             IN  [todo |-> rest \cup add, shaDone |-> shaDone \cup {o}, sent |-> sent \cup {o}]
-
-\* the iteration run to the end, popping the least entry (reference result for the traces; the
-\* model checks with PopAny that the order is irrelevant)
-RECURSIVE MofRun(_, _, _, _, _)
-MofRun(U, tagged, todo, shaDone, sent) ==
-    IF todo = {} THEN sent
-    ELSE LET e == CHOOSE x \in todo : \A y \in todo :
-                      Rank(x[1]) * 2 + (IF x[2] THEN 1 ELSE 0) <= Rank(y[1]) * 2 + (IF y[2] THEN 1 ELSE 0)
-             r == MofStep(U, tagged, todo, shaDone, sent, e)
-         IN  MofRun(U, tagged, r.todo, r.shaDone, r.sent)
-MofSent(U, store, haves, wants, tagged) ==
-    LET i == MofInit(U, store, haves, wants)
-    IN  MofRun(U, tagged, i.todo, i.remoteHas, {})
-
-(***************************************************************************)
-(* Part 3 -- negotiation                                                    *)
-(***************************************************************************)
-\* ObjectStoreGraphWalker: heads = set of commit numbers, wp[i] = <<0,{}>> not in self.parents,
-\* <<1, ps>> parents recorded, <<2, {}>> None
-WalkerInit(n) == [i \in 1..n |-> <<0, {}>>]
-
-\* next() having popped head h; ps = parents of h in the client's store
-WalkerNext(U, heads, wp, h) ==
-    LET ps  == U.par[h]
-        wp2 == [wp EXCEPT ![h] = <<1, ps>>]
-    IN  [heads |-> (heads \ {h}) \cup {p \in ps : wp2[p][1] = 0}, wp |-> wp2]
-
-RECURSIVE WalkerAck(_, _, _)
-WalkerAck(heads, wp, anc) ==
-    IF heads = {} THEN [heads |-> heads, wp |-> wp]
-    ELSE LET h2  == heads \ anc
-             new == UNION {IF wp[a][1] = 1 THEN wp[a][2] ELSE {} : a \in anc}
-             wp2 == [a \in DOMAIN wp |-> IF a \in anc THEN <<2, {}>> ELSE wp[a]]
-         IN  IF new = {} THEN [heads |-> h2, wp |-> wp2] ELSE WalkerAck(h2, wp2, new)
-
-\* the complete walk against a sender store (LocalGitClient: find_common_revisions is called with
-\* the client's walker directly): the set of haves found does depend on the pop order, the set
-\* of their ancestors does not; CompleteWalk picks the least head each time
-RECURSIVE CompleteWalk(_, _, _, _, _)
-CompleteWalk(U, sstore, heads, wp, found) ==
-    IF heads = {} THEN found
-    ELSE LET h == CHOOSE x \in heads : \A y \in heads : x >= y
-             n == WalkerNext(U, heads, wp, h)
-         IN  IF C(h) \in sstore
-             THEN LET a == WalkerAck(n.heads, n.wp, {h}) IN CompleteWalk(U, sstore, a.heads, a.wp, found \cup {C(h)})
-             ELSE CompleteWalk(U, sstore, n.heads, n.wp, found)
-
-\* server.py _want_satisfied / _all_wants_satisfied with commit times that increase from parent to
-\* child (the time cut-off is then exact): a want is satisfied iff it is a commit that has one of
-\* the haves among its ancestors-or-self; a want that is not a commit is never satisfied
-AllSatisfied(U, wants, common) ==
-    /\ wants # {}
-    /\ \A w \in wants : Kind(w) = "c" /\ Anc(U, {w}) \cap common # {}
-
-\* what the server writes after reading "have h" and how its state changes.
-\* st = [common: Seq(obj), found: BOOLEAN, haves: Seq(obj)]
-SrvHave(U, sstore, wants, mode, st, h) ==
-    LET known == h \in sstore IN
-    CASE mode = "single" ->
-           IF known
-           THEN [st |-> [st EXCEPT !.haves = Append(@, h),
-                                   !.common = IF st.common = <<>> THEN <<h>> ELSE @],
-                 out |-> IF st.common = <<>> THEN <<<<"ACK", h, "">>>> ELSE <<>>]
-           ELSE [st |-> st, out |-> <<>>]
-      [] mode = "multi" ->
-           LET blind == IF st.found THEN <<<<"ACK", h, "continue">>>> ELSE <<>> IN
-           IF known
-           THEN LET c2 == Append(st.common, h)
-                    f2 == st.found \/ AllSatisfied(U, wants, {c2[i] : i \in 1..Len(c2)})
-                IN  [st |-> [common |-> c2, found |-> f2, haves |-> Append(st.haves, h)],
-                     out |-> blind \o (IF st.found THEN <<>> ELSE <<<<"ACK", h, "continue">>>>)]
-           ELSE [st |-> st, out |-> blind]
-      [] OTHER ->  \* "detailed"
-           IF known
-           THEN [st |-> [st EXCEPT !.common = Append(@, h), !.haves = Append(@, h)],
-                 out |-> <<<<"ACK", h, "common">>>>]
-           ELSE [st |-> st, out |-> <<>>]
-
-\* a flush-pkt in the middle of the haves (C git clients; the dulwich client never sends one)
-SrvFlush(U, wants, mode, st) ==
-    CASE mode = "multi"    -> <<<<"NAK">>>>
-      [] mode = "detailed" -> (IF AllSatisfied(U, wants, {st.common[i] : i \in 1..Len(st.common)})
-                               THEN <<<<"ACK", st.common[Len(st.common)], "ready">>>> ELSE <<>>) \o <<<<"NAK">>>>
-      [] OTHER             -> <<>>         \* single: a flush ends the have list like "done"
-
-\* handle_done after "done"
-SrvDone(mode, st) ==
-    CASE mode = "single" -> IF st.common = <<>> THEN <<<<"NAK">>>> ELSE <<>>
-      [] OTHER           -> IF st.common = <<>> THEN <<<<"NAK">>>>
-                            ELSE <<<<"ACK", st.common[Len(st.common)], "">>>>
+    PopAny       \* TRUE: MissingObjectFinder pops any todo entry; FALSE: the least (state reduction)
+                 \* (Bug, the seeded model defect of the negative controls, is declared in TransferOps)
 
 (***************************************************************************)
 (* Part 4 -- one transfer                                                   *)
